@@ -6,7 +6,7 @@ from vlib.engine import Outcome
 
 PROPERTY = 'C11'
 RULE = ('A real BP agent with a "forward" receive route and a transmit route receives a generated bundle from the '
-        'independent RFC 9171 encoder: any multiset of previous-node, hop-count (limit/count on CBOR head boundaries), '
+        'independent RFC 9171 encoder: any multiset of previous-node (also with an unknown EID scheme, or opaque as under a BCB), hop-count (limit/count on CBOR head boundaries), '
         'bundle-age and unknown extension blocks, CRC type per block, arbitrary unique block numbers with gaps, report '
         'flags, creation time zero, in the past or slightly in the future; the virtual clock is advanced by a drawn amount before the '
         'forwarding idle callback runs.  Oracle on the octets handed to the convergence layer, parsed by the '
@@ -39,11 +39,20 @@ def budgets(tier):
 @st.composite
 def ext_blocks(draw):
     from vlib import strat, ref9171 as r
-    kind = draw(st.sampled_from(['prev', 'hop', 'hop', 'age', 'unknown', 'unknown']))
+    kind = draw(st.sampled_from(['prev', 'hop', 'hop', 'age', 'unknown', 'unknown', 'prev-foreign', 'prev-opaque', 'age-opaque']))
     crc = draw(st.sampled_from([0, 1, 2]))
     flags = draw(strat.flag_sets(strat.BLOCK_FLAGS + strat.UNASSIGNED_BLOCK_FLAGS[:2]))
     if kind == 'prev':
         return dict(type=6, flags=flags, crc_type=crc, data=r.btsd_previous_node(draw(strat.eids(allow_none=False))))
+    if kind == 'prev-foreign':
+        # the previous hop named itself with an EID scheme this implementation does not know: [scheme code, any item]
+        from vlib import cborpull as cb
+        return dict(type=6, flags=flags, crc_type=crc, data=cb.enc([draw(st.sampled_from([3, 4, 65535])), 'example-ssp']).hex())
+    if kind in ('prev-opaque', 'age-opaque'):
+        # a Previous Node / Bundle Age block that is the target of a confidentiality block: its data is ciphertext
+        # (the BCB itself is not needed for what forwarding does to these blocks)
+        return dict(type=6 if kind == 'prev-opaque' else 7, flags=flags, crc_type=crc,
+                    data=draw(st.binary(min_size=17, max_size=30)).hex())
     if kind == 'hop':
         limit = draw(st.sampled_from([1, 23, 24, 30, 255, 256, 65535]))
         count = draw(st.sampled_from([0, 1, 22, 23, 24, 254, 255, 256, 65534]))
